@@ -496,6 +496,8 @@ pub fn run(cx: &mut Ctx) {
         cx.evaln(n as u64);
     }
     cx.note("calls_per_entry_point", json!(n));
+    #[cfg(feature = "nightly")]
+    lock_refused(cx);
     if !only_nightly {
         across_fork(cx, &eps);
         os_source_refused(cx, &eps);
@@ -623,6 +625,72 @@ fn os_source_refused(cx: &mut Ctx, eps: &[(&'static str, Gen)]) {
             if zero || repeated {
                 cx.violation(&format!("C11|{}|returns_unfilled_value_when_os_random_source_fails", name), json!({"component":c,"calls_that_returned":per_call.len(),"all_zero":zero,"repeated":repeated,"first":hx(vs[0])}));
                 break;
+            }
+        }
+    }
+}
+
+/// fault injection on memory locking: the in-binary mlock interposer (see prot.rs) refuses lock requests from the k-th on,
+/// with the errno values mlock(2) documents. The constructors that generate straight into locked memory are then called.
+/// Not returning a value (a panic, an Err) is fine; what must not happen is a *returned* value that is all-zero or repeats,
+/// i.e. a region handed back without the random bytes in it.
+#[cfg(feature = "nightly")]
+fn lock_refused(cx: &mut Ctx) {
+    use dryoc::protected::*;
+    if !cx.mine(66_666) {
+        return;
+    }
+    let forms: Vec<(&'static str, Gen)> = vec![
+        ("Locked<HeapByteArray<32>>::gen", ni::g_locked_gen),
+        ("Locked<HeapByteArray<24>>::gen", || vec![<Locked<HeapByteArray<24>> as NewByteArray<24>>::gen().as_slice().to_vec()]),
+        ("Locked<HeapByteArray<64>>::gen", || vec![<Locked<HeapByteArray<64>> as NewByteArray<64>>::gen().as_slice().to_vec()]),
+        ("LockedKdf::gen", ni::g_locked_kdf_gen),
+        ("KeyPair<Locked,Locked>::gen", || {
+            let kp = dryoc::keypair::KeyPair::<Locked<HeapByteArray<32>>, Locked<HeapByteArray<32>>>::gen();
+            vec![kp.secret_key.as_slice().to_vec(), kp.public_key.as_slice().to_vec()]
+        }),
+        ("HeapByteArray<32>::gen_locked", || HeapByteArray::<32>::gen_locked().map(|r| vec![r.as_slice().to_vec()]).unwrap_or_default()),
+        ("HeapByteArray<32>::gen_readonly_locked", || HeapByteArray::<32>::gen_readonly_locked().map(|r| vec![r.as_slice().to_vec()]).unwrap_or_default()),
+        ("KeyPair::gen_locked_keypair", || {
+            dryoc::keypair::KeyPair::<Locked<HeapByteArray<32>>, Locked<HeapByteArray<32>>>::gen_locked_keypair().map(|kp| vec![kp.secret_key.as_slice().to_vec()]).unwrap_or_default()
+        }),
+    ];
+    for (name, f) in forms.iter() {
+        for fail_from in [0i64, 1, 2, 5] {
+            let mut returned: Vec<Vec<Vec<u8>>> = Vec::new();
+            let mut not_returned = 0usize;
+            super::prot::mlock_reset(fail_from);
+            let errno = super::prot::mlock_errno_name();
+            for _ in 0..8 {
+                match guard(name, || f()) {
+                    Ok(v) if !v.is_empty() => returned.push(v),
+                    _ => not_returned += 1,
+                }
+            }
+            let refusals = super::prot::mlock_refused();
+            super::prot::mlock_reset(-1);
+            cx.eval();
+            if refusals == 0 {
+                cx.cover("lock_refused", "no_lock_request_was_refused");
+                continue;
+            }
+            cx.cover("lock_refused_errno", errno);
+            cx.cover("lock_refused", if not_returned > 0 { "no_value_returned(panic or Err)" } else { "value_returned_although_refused" });
+            if returned.is_empty() {
+                continue;
+            }
+            let ncomp = returned[0].len();
+            for c in 0..ncomp {
+                let vs: Vec<&Vec<u8>> = returned.iter().filter_map(|call| call.get(c)).filter(|v| v.len() >= 16).collect();
+                if vs.is_empty() {
+                    continue;
+                }
+                let zero = vs.iter().any(|v| v.iter().all(|b| *b == 0));
+                let set: HashSet<&Vec<u8>> = vs.iter().cloned().collect();
+                if zero || set.len() != vs.len() {
+                    cx.violation(&format!("C11|{}|returns_unfilled_value_when_memory_lock_is_refused", name), json!({"component":c,"lock_requests_refused_from":fail_from,"errno":errno,"calls_that_returned":returned.len(),"calls_that_did_not":not_returned,"all_zero":zero,"distinct":set.len(),"first":hx(vs[0])}));
+                    break;
+                }
             }
         }
     }
